@@ -74,6 +74,8 @@ pub struct Cx<'g> {
     pub fuels: Vec<String>,
     fuel_next: usize,
     /// length of the array type a `let` annotation asks for (const-generic argument of the initialiser call)
+    /// translating the initialiser of a `const` item (compile-time evaluation: arithmetic is exact)
+    pub const_ctx: bool,
     pub array_len_hint: Option<String>,
     /// array length found by looking ahead for the field that the `let` variable initialises
     array_len_lookahead: Option<String>,
@@ -113,6 +115,7 @@ impl<'g> Cx<'g> {
             pending_ro: Vec::new(),
             fuels: Vec::new(),
             fuel_next: 0,
+            const_ctx: false,
             array_len_hint: None,
             array_len_lookahead: None,
             err_state: false,
@@ -301,9 +304,25 @@ impl<'g> Cx<'g> {
     /// outer variables assigned inside `e` (declared in the current scopes)
     pub fn assigned_in_expr(&self, e: &syn::Expr) -> Vec<String> {
         let mut a = Assigned::new(&self.mut_methods);
+        a.byref = self.byref_vars();
         a.visit_expr(e);
         self.resolve_assigned(a.out)
     }
+    /// variables that are `&mut` parameters or hold a cursor model (a callee they are passed to may mutate them)
+    fn byref_vars(&self) -> Vec<String> {
+        let mut v: Vec<String> = self.mut_params.clone();
+        for sc in &self.scopes {
+            for (n, t) in sc {
+                if let Ty::Named(tn) = t {
+                    if matches!(tn.as_str(), "ReadCursor" | "WriteCursor" | "OctetsMut" | "Octets") && !v.contains(n) {
+                        v.push(n.clone());
+                    }
+                }
+            }
+        }
+        v
+    }
+
     /// assigned variables: known in the current scopes, aliases replaced by the variable they point into
     fn resolve_assigned(&self, out: std::collections::BTreeSet<String>) -> Vec<String> {
         let mut r: std::collections::BTreeSet<String> = std::collections::BTreeSet::new();
@@ -318,6 +337,7 @@ impl<'g> Cx<'g> {
     }
     pub fn assigned_in_block(&self, b: &syn::Block, bound: &[String]) -> Vec<String> {
         let mut a = Assigned::new(&self.mut_methods);
+        a.byref = self.byref_vars();
         for n in bound {
             a.declare(n);
         }
@@ -1190,6 +1210,10 @@ impl<'g> Cx<'g> {
 
     pub fn match_doc(&mut self, m: &syn::ExprMatch, tail: &Tail, stmts: &mut Vec<Stmt>) -> R<(Doc, Ty)> {
         let (scrut, st, base) = self.scrutinee(&m.expr, stmts)?;
+        // an integer `match` with constants as patterns: an `if` chain (Lean cannot match on a `def`)
+        if st.is_int() && m.arms.iter().any(|a| self.is_const_pat(&a.pat)) {
+            return self.const_match(m, &scrut, &st, tail);
+        }
         let mut arms = Vec::new();
         let mut ty = Ty::Unknown;
         let mut tail = tail.clone();
@@ -1223,6 +1247,90 @@ impl<'g> Cx<'g> {
             arms.push((p, d));
         }
         Ok((Doc::Match(scrut, arms), ty))
+    }
+
+    fn is_const_pat(&self, p: &syn::Pat) -> bool {
+        match p {
+            syn::Pat::Ident(pi) => pi.subpat.is_none() && self.g.consts.contains_key(&pi.ident.to_string()),
+            syn::Pat::Path(pp) => pp.path.segments.last().map(|s| self.g.consts.contains_key(&s.ident.to_string())).unwrap_or(false),
+            syn::Pat::Or(o) => o.cases.iter().any(|c| self.is_const_pat(c)),
+            syn::Pat::Paren(pp) => self.is_const_pat(&pp.pat),
+            _ => false,
+        }
+    }
+
+    /// condition "`scrut` matches `p`" for a constant / literal / or-pattern of these
+    fn const_pat_cond(&mut self, p: &syn::Pat, scrut: &str, st: &Ty) -> R<String> {
+        match p {
+            syn::Pat::Paren(pp) => self.const_pat_cond(&pp.pat, scrut, st),
+            syn::Pat::Or(o) => {
+                let mut parts = Vec::new();
+                for c in &o.cases {
+                    parts.push(self.const_pat_cond(c, scrut, st)?);
+                }
+                Ok(format!("({})", parts.join(" || ")))
+            }
+            syn::Pat::Lit(l) => {
+                let mut tmp: Vec<Stmt> = Vec::new();
+                let (v, _) = self.expr(&syn::Expr::Lit(syn::ExprLit { attrs: vec![], lit: l.lit.clone() }), Some(st), &mut tmp)?;
+                Ok(format!("(decide ({} = {}))", scrut, v))
+            }
+            syn::Pat::Ident(_) | syn::Pat::Path(_) if self.is_const_pat(p) => {
+                let path: syn::Path = match p {
+                    syn::Pat::Ident(pi) => pi.ident.clone().into(),
+                    syn::Pat::Path(pp) => pp.path.clone(),
+                    _ => unreachable!(),
+                };
+                let mut tmp: Vec<Stmt> = Vec::new();
+                let e = syn::Expr::Path(syn::ExprPath { attrs: vec![], qself: None, path });
+                let (v, _) = self.expr(&e, Some(st), &mut tmp)?;
+                if !tmp.is_empty() {
+                    return self.bail(p.span(), "unsupported constant pattern");
+                }
+                Ok(format!("(decide ({} = {}))", scrut, v))
+            }
+            o => self.bail(o.span(), "in a `match` with constant patterns only constants, integer literals and a final `_` / variable arm are supported"),
+        }
+    }
+
+    fn const_match(&mut self, m: &syn::ExprMatch, scrut: &str, st: &Ty, tail: &Tail) -> R<(Doc, Ty)> {
+        let n = m.arms.len();
+        let last = &m.arms[n - 1];
+        if last.guard.is_some() || m.arms.iter().any(|a| a.guard.is_some()) {
+            return self.bail(m.span(), "match guards are not supported");
+        }
+        // the final arm catches everything
+        let binds: Vec<(String, Ty)> = match &last.pat {
+            syn::Pat::Wild(_) => vec![],
+            syn::Pat::Ident(pi) if pi.subpat.is_none() && !self.is_const_pat(&last.pat) => vec![(pi.ident.to_string(), st.clone())],
+            o => return self.bail(o.span(), "a `match` with constant patterns needs a final `_` / variable arm"),
+        };
+        let mut tail = tail.clone();
+        let mut ty = Ty::Unknown;
+        let mut conds: Vec<String> = Vec::new();
+        let mut docs: Vec<Doc> = Vec::new();
+        for arm in &m.arms[..n - 1] {
+            conds.push(self.const_pat_cond(&arm.pat, scrut, st)?);
+            let (d, t, div) = self.arm_doc(&arm.body, &tail, &[])?;
+            if !div && matches!(ty, Ty::Unknown) {
+                ty = t.clone();
+                if let Tail::Value(None) = tail {
+                    tail = Tail::Value(Some(t));
+                }
+            }
+            docs.push(d);
+        }
+        let (mut acc, t, div) = self.arm_doc(&last.body, &tail, &binds)?;
+        if let Some((b, _)) = binds.first() {
+            acc = Doc::seq(vec![Stmt::Let(lean_ident(b), scrut.to_string())], acc);
+        }
+        if !div && matches!(ty, Ty::Unknown) {
+            ty = t;
+        }
+        for (c, d) in conds.into_iter().zip(docs.into_iter()).rev() {
+            acc = Doc::If(c, Box::new(d), Box::new(acc));
+        }
+        Ok((acc, ty))
     }
 
     /// `while cond { body }` with manifest fuel
@@ -1299,7 +1407,7 @@ impl<'g> Cx<'g> {
 
     /// `for x in place.iter_mut()`, `for (i, x) in place.iter_mut().enumerate()`, `for (&k, v) in map.iter_mut()`:
     /// a loop over the positions; `x` / `v` stands for the place `place[i]` / the value of the `i`-th binding
-    fn for_iter_mut(&mut self, f: &syn::ExprForLoop, recv: &syn::Expr, enumerated: bool, stmts: &mut Vec<Stmt>) -> R<()> {
+    fn for_iter_mut(&mut self, f: &syn::ExprForLoop, recv: &syn::Expr, enumerated: bool, limit: Option<&syn::Expr>, stmts: &mut Vec<Stmt>) -> R<()> {
         let label = f.label.as_ref().map(|l| l.name.ident.to_string());
         let exit = super::analysis::loop_has_jumps(&f.body, label.as_deref());
         let pl = self.place(recv, stmts)?;
@@ -1374,7 +1482,16 @@ impl<'g> Cx<'g> {
             m.sort();
         }
         let cur = self.read(&pl, stmts)?;
-        let hi = format!("(RustSem.len {})", cur);
+        let hi = match limit {
+            None => format!("(RustSem.len {})", cur),
+            Some(n) => {
+                let (nt, nty) = self.expr(n, Some(&Ty::usize()), stmts)?;
+                if !nty.is_int() {
+                    return self.bail(n.span(), "`take` needs an integer");
+                }
+                format!("(Nat.min {} (RustSem.len {}))", nt, cur)
+            }
+        };
         let site = format!("\"{}:{}: {}\"", self.file, self.fn_disp, self.src(f.expr.span(), String::new()));
         let at = Place::Index(Box::new(pl.clone()), lean_ident(&ivar), et.clone(), site.clone());
         let mut binds = vec![(ivar.clone(), Ty::usize())];
@@ -1469,7 +1586,15 @@ impl<'g> Cx<'g> {
                     };
                     if let syn::Expr::MethodCall(mc) = inner_e {
                         if mc.method == "iter_mut" && mc.args.is_empty() {
-                            return self.for_iter_mut(f, &mc.receiver, enumerated, stmts);
+                            return self.for_iter_mut(f, &mc.receiver, enumerated, None, stmts);
+                        }
+                        // `place.iter_mut().take(n)`: the first `min(n, len)` elements
+                        if mc.method == "take" && mc.args.len() == 1 && !enumerated {
+                            if let syn::Expr::MethodCall(im) = &*mc.receiver {
+                                if im.method == "iter_mut" && im.args.is_empty() {
+                                    return self.for_iter_mut(f, &im.receiver, false, Some(&mc.args[0]), stmts);
+                                }
+                            }
                         }
                     }
                 }
